@@ -2,5 +2,5 @@ SPECIFICATION Spec
 CONSTANTS
   MaxHist = 3
   Repeat = FALSE
-INVARIANTS CoverageSufficient RepoIndependent HistorySound InstanceMemoOnlyNetid
+INVARIANTS HistoryIndependent
 CHECK_DEADLOCK FALSE
